@@ -24,7 +24,7 @@ theorem mainStep_finPc {k : Nat} {w w' : Wk τ} {p : MainP} (h : FinPc w) (hm : 
   | collect =>
     simp only [hph] at hm
     cases p with
-    | collect errs garbage =>
+    | collect errs garbage intr sf0 =>
       simp only at hm
       split at hm
       · simp only [Option.some.injEq] at hm; subst hm; exact fun _ => Or.inl rfl
